@@ -4,7 +4,7 @@ HARNESS_FILES = ["verif_proj.rs"]
 P = "verif_proj::"
 MANIFEST = dict(
     category="other",
-    text="Decides everything around the libm calls of proj/unproj, for all doubles of the stated domains (complete, loop-free): pm1_offset_decompose (odd offset mod 8, remainder in [-1,1], exact recomposition); proj: |x| <= 8 with the sign of lon, |y| <= 1 in the equatorial region and 1 <= |y| <= 2 in the caps with the sign of lat, for |lon| <= 200; unproj (equatorial band): |lat| <= asin(2/3) with the sign of y, lon with the sign of x, |lon| <= 2pi; base_cell_from_proj_coo: for EVERY point of the projected domain (the net: band + gores) the returned base cell is < 12 and its diamond (integer geometry) contains the point, no debug assertion or overflow can fail; latitude outside [-pi/2,pi/2] and y outside [-2,2] (NaN included) must panic. sin/cos/asin/acos are replaced by range facts (assumed).",
+    text="Decides everything around the libm calls of proj/unproj, for all doubles of the stated domains (complete, loop-free): pm1_offset_decompose (odd offset mod 8, remainder in [-1,1], exact recomposition); proj: |x| <= 8 with the sign of lon, |y| <= 1 in the equatorial region and 1 <= |y| <= 2 in the caps with the sign of lat, for |lon| <= 200; unproj (equatorial band): |lat| <= asin(2/3) with the sign of y, lon with the sign of x, |lon| <= 2pi; unproj (polar caps, gore edges and numerically-just-outside points included): latitude in the cap with the sign of y, longitude in the facet of x and on the same side of its central meridian; base_cell_from_proj_coo: for EVERY point of the projected domain (the net: band + gores) the returned base cell is < 12 and its diamond (integer geometry) contains the point, no debug assertion or overflow can fail; latitude outside [-pi/2,pi/2] and y outside [-2,2] (NaN included) must panic. sin/cos/asin/acos are replaced by range facts (assumed).",
     note="Not decided: that proj matches the Calabretta-Roukema formulae numerically and that unproj(proj(p)) = p to 1e-14 (needs real-number semantics of libm inverse pairs, absent from every installed verifier).",
     technique="Kani full-domain harnesses over IEEE-754 doubles (CBMC) on the real proj/unproj/base_cell_from_proj_coo with libm replaced by assumed range facts",
 )
